@@ -17,6 +17,7 @@ import (
 
 	"github.com/xuperchain/xupercore/bcs/ledger/xledger/ledger"
 	pb "github.com/xuperchain/xupercore/bcs/ledger/xledger/xldgpb"
+	xconf "github.com/xuperchain/xupercore/kernel/common/xconfig"
 	"github.com/xuperchain/xupercore/kernel/mock"
 	"github.com/xuperchain/xupercore/lib/crypto/hash"
 	_ "github.com/xuperchain/xupercore/lib/storage/kvdb/leveldb"
@@ -29,6 +30,7 @@ var genesisConf = []byte(`{"version":"1","predistribution":[{"address":"TeyyPLpp
 "genesis_consensus":{"name":"single","config":{"miner":"TeyyPLpp9L7QAcxHangtcHTu7HUZ6iydY","period":3000}}}`)
 
 var theLedger *ledger.Ledger
+var ledgerEnv *xconf.EnvConf
 
 func getLedger() *ledger.Ledger {
 	if theLedger != nil {
@@ -47,6 +49,7 @@ func getLedger() *ledger.Ledger {
 	abs, _ := filepath.Abs(scratch)
 	ec.RootPath, ec.DataDir, ec.ChainDir = abs, "data", "chain"
 	lctx.EnvCfg = &ec
+	ledgerEnv = &ec
 	os.RemoveAll(filepath.Join(abs, "data"))
 	l, err := ledger.CreateLedger(lctx, genesisConf)
 	if err != nil {
